@@ -51,6 +51,124 @@ let do_att (t : string list) : string =
       [r; b; N.coq_lor r b; leaper knight_offs s; leaper king_offs s; leaper wpawn_offs s; leaper bpawn_offs s])
   | _ -> "BADREQ"
 
+(* ---- chess core ---- *)
+let parse_game (t : string array) (o : int) : game =
+  let bb = List.init 12 (fun i -> n_of_hex t.(o + i)) in
+  { bbs = bb; wocc = n_of_hex t.(o + 12); bocc = n_of_hex t.(o + 13); aocc = n_of_hex t.(o + 14);
+    white = (t.(o + 15) = "1"); ep = n_of_string t.(o + 16); castling = n_of_string t.(o + 17);
+    half = n_of_string t.(o + 18); full = n_of_string t.(o + 19); hash = n_of_hex t.(o + 20) }
+
+let game_fields ?(sep = " ") (g : game) : string =
+  String.concat sep (List.map hex_of_n g.bbs @ [hex_of_n g.wocc; hex_of_n g.bocc; hex_of_n g.aocc;
+    (if g.white then "1" else "0"); string_of_n g.ep; string_of_n g.castling; string_of_n g.half; string_of_n g.full; hex_of_n g.hash])
+
+let b2s b = if b then "1" else "0"
+let move_fields (m : move) : string =
+  Printf.sprintf "%d:%d:%d:%d:%s%s%s%s" (int_of_n m.mfrom) (int_of_n m.mto) (int_of_n m.mpiece) (int_of_n m.mpromo)
+    (b2s m.mcap) (b2s m.mdp) (b2s m.mep) (b2s m.mcastle)
+
+let do_pos (t : string list) : string =
+  let a = Array.of_list t in
+  let g = parse_game a 0 in
+  let all = generate_moves g true and q = generate_moves g false in
+  let buf = Buffer.create 4096 in
+  Buffer.add_string buf "A";
+  List.iter (fun m -> Buffer.add_char buf ' '; Buffer.add_string buf (move_fields m)) all;
+  Buffer.add_string buf " | Q";
+  List.iter (fun m -> Buffer.add_char buf ' '; Buffer.add_string buf (move_fields m)) q;
+  Buffer.add_string buf " | L ";
+  List.iter (fun m -> Buffer.add_string buf (b2s (is_legal g m))) all;
+  Buffer.add_string buf " | LQ ";
+  List.iter (fun m -> Buffer.add_string buf (b2s (is_legal g m))) q;
+  Buffer.add_string buf " | M";
+  let mk = Buffer.create 1024 in
+  List.iter (fun m ->
+    match make_search_move g m with
+    | Illegal -> Buffer.add_string buf " I"; Buffer.add_string mk " -"
+    | MPanic -> Buffer.add_string buf " PANIC"; Buffer.add_string mk " -"
+    | Made g' -> Buffer.add_char buf ' '; Buffer.add_string buf (game_fields ~sep:"," g');
+                 Buffer.add_char mk ' '; Buffer.add_string mk (hex_of_n (make_zobrist_hash g'))) all;
+  Buffer.add_string buf " | MK"; Buffer.add_buffer buf mk;
+  Buffer.add_string buf (Printf.sprintf " | E %s | K %s | C %s" (string_of_z (evaluate g)) (hex_of_n (make_zobrist_hash g)) (b2s (is_in_check g g.white)));
+  Buffer.add_string buf (Printf.sprintf " | P %s %s" (string_of_n (perft1 g)) (string_of_n (perft2 g)));
+  Buffer.contents buf
+
+(* succ <game>: legal successors, for the position generator: "<move>=<fields,>" ... *)
+let do_succ (t : string list) : string =
+  let g = parse_game (Array.of_list t) 0 in
+  String.concat " " (List.filter_map (fun m ->
+    match make_search_move g m with Made g' -> Some (move_fields m ^ "=" ^ game_fields ~sep:"," g') | _ -> None) (generate_moves g true))
+
+(* rekey <game>: the same game with its key recomputed from scratch *)
+let do_rekey (t : string list) : string =
+  let g = parse_game (Array.of_list t) 0 in
+  game_fields { g with hash = make_zobrist_hash g }
+
+(* judge <game> @ <an implementation's answer to pos>: the Coq monitors (Model/Abs.v) applied to that answer *)
+let parse_move (s : string) : move =
+  match String.split_on_char ':' s with
+  | [f; t; p; pr; fl] ->
+    { mfrom = n_of_string f; mto = n_of_string t; mpiece = n_of_string p; mpromo = n_of_string pr;
+      mcap = (fl.[0] = '1'); mdp = (fl.[1] = '1'); mep = (fl.[2] = '1'); mcastle = (fl.[3] = '1') }
+  | _ -> failwith ("bad move " ^ s)
+
+let split_on (sep : string) (l : string list) : string list * string list =
+  let rec go acc = function x :: r when x = sep -> (List.rev acc, r) | x :: r -> go (x :: acc) r | [] -> (List.rev acc, []) in
+  go [] l
+
+let do_judge (t : string list) : string =
+  let (gt, ans) = split_on "@" t in
+  let g = parse_game (Array.of_list gt) 0 in
+  (* sections separated by "|" *)
+  let rec sections acc cur = function
+    | "|" :: r -> sections (List.rev cur :: acc) [] r
+    | x :: r -> sections acc (x :: cur) r
+    | [] -> List.rev (List.rev cur :: acc) in
+  let secs = sections [] [] ans in
+  let find tag = match List.find_opt (function x :: _ -> x = tag | [] -> false) secs with Some (_ :: r) -> r | _ -> [] in
+  let all = List.map parse_move (find "A") and q = List.map parse_move (find "Q") in
+  let bits s = match s with [b] -> List.init (String.length b) (fun i -> b.[i] = '1') | _ -> [] in
+  let l = bits (find "L") and lq = bits (find "LQ") in
+  let m = find "M" and mk = find "MK" in
+  let bad = ref [] in
+  let add s = bad := s :: !bad in
+  if List.length l <> List.length all || List.length lq <> List.length q || List.length m <> List.length all then add "malformed"
+  else begin
+    let by_filter = List.filter_map (fun (mv, b) -> if b then Some mv else None) (List.combine all l) in
+    let made = List.combine all m in
+    let by_make = List.filter_map (fun (mv, r) -> if r <> "I" then Some mv else None) made in
+    if by_filter <> by_make then add "C01:legality-paths-differ";
+    if not (mon_legal_set g by_filter) then add "C01:legal-set(filter)";
+    if not (mon_legal_set g by_make) then add "C01:legal-set(make)";
+    let by_filter_q = List.filter_map (fun (mv, b) -> if b then Some mv else None) (List.combine q lq) in
+    if not (mon_capture_set g by_filter_q) then add "C01:capture-set";
+    List.iteri (fun i (mv, r) ->
+      if r <> "I" then begin
+        let f = Array.of_list (String.split_on_char ',' r) in
+        if Array.length f <> 21 then add ("C02:successor-malformed:" ^ move_fields mv)
+        else begin
+          let g' = parse_game f 0 in
+          if not (mon_make g mv g') then add ("C02:successor:" ^ move_fields mv);
+          (match List.nth_opt mk i with
+           | Some k when k = hex_of_n g'.hash -> ()
+           | _ -> add ("C04:incremental-key:" ^ move_fields mv))
+        end
+      end) made;
+    (match find "C" with [c] -> if (c = "1") <> spec_in_check g then add "C01:in-check" | _ -> add "malformed-C");
+    (match find "P" with
+     | [p1; p2] ->
+       if p1 <> string_of_z (spec_perft (n_of_int 1) g) then add "C14:perft1";
+       if p2 <> string_of_z (spec_perft (n_of_int 2) g) then add "C14:perft2"
+     | _ -> add "malformed-P")
+  end;
+  if !bad = [] then "OK" else "BAD " ^ String.concat " " (List.rev !bad)
+
+(* specperft <d> <game> *)
+let do_specperft (t : string list) : string =
+  match t with d :: r -> string_of_z (spec_perft (n_of_string d) (parse_game (Array.of_list r) 0)) | [] -> "BADREQ"
+
+let do_eval (t : string list) : string = string_of_z (evaluate (parse_game (Array.of_list t) 0))
+
 let () =
   try
     while true do
@@ -62,6 +180,14 @@ let () =
        | "ttmon" :: r -> print_endline (do_ttmon r)
        | "go" :: r -> print_endline (do_go r)
        | "att" :: r -> print_endline (do_att r)
+       | "pos" :: r -> print_endline (do_pos r)
+       | "succ" :: r -> print_endline (do_succ r)
+       | "rekey" :: r -> print_endline (do_rekey r)
+       | "eval" :: r -> print_endline (do_eval r)
+       | "judge" :: r -> print_endline (do_judge r)
+       | "wf" :: r -> print_endline (b2s (wf (parse_game (Array.of_list r) 0)))
+       | "specperft" :: r -> print_endline (do_specperft r)
+       | "perft" :: d :: r -> print_endline (string_of_n (perft_n (n_of_string d) (parse_game (Array.of_list r) 0)))
        | x :: _ -> print_endline ("BADREQ " ^ x))
     done
   with End_of_file -> ()
